@@ -112,7 +112,10 @@ func outputTupleDir(v rel.Value, dir string, fs afero.Fs, dryRun bool) error {
 		if !is {
 			return fmt.Errorf("dir output dict key must be a non-empty string")
 		}
-		subpath := path.Join(dir, name.String())
+		subpath, err := joinInside(dir, name.String())
+		if err != nil {
+			return err
+		}
 		switch content := v.(type) {
 		case rel.Tuple:
 			if err := configureOutput(content, subpath, fs, dryRun); err != nil {
@@ -138,6 +141,17 @@ func outputTupleDir(v rel.Value, dir string, fs afero.Fs, dryRun bool) error {
 		}
 	}
 	return nil
+}
+
+// joinInside joins an entry name onto dir and rejects names that would
+// resolve to dir itself or to anything outside it (".", "..", "../x").
+func joinInside(dir, name string) (string, error) {
+	rooted := path.Join("/", name)
+	sub := path.Join(dir, name)
+	if rooted == "/" || sub != path.Join(dir, rooted) {
+		return "", fmt.Errorf("dir output dict key must name an entry inside the directory: %q", name)
+	}
+	return sub, nil
 }
 
 func outputFile(content rel.Value, path string, fs afero.Fs, dryRun bool) error {
